@@ -57,6 +57,7 @@ type proc struct {
 	noWatcher      bool            // "can't create fs watcher" (inotify instance limit of the machine): the run observes nothing
 	deletedJobs    map[string]bool // source ids of jobs deleted by maintenance
 	readded        int             // jobs added again for a source id whose job had been deleted
+	writeNotifies  int             // "notify notify.Write ..." lines (logged right before the watcher's Lstat)
 }
 
 var (
@@ -214,6 +215,8 @@ func (p *proc) line(b []byte) {
 		}
 	case strings.Contains(l.Message, "was truncated, reading will start over"):
 		p.truncSeen++
+	case strings.HasPrefix(l.Message, "notify notify.Write "):
+		p.writeNotifies++
 	case strings.Contains(l.Message, "can't create fs watcher"):
 		p.noWatcher = true
 	case strings.HasPrefix(l.Message, "job ") && strings.HasSuffix(l.Message, " deleted"):
@@ -669,6 +672,25 @@ func runScenario(s *Scenario, bin string) *result {
 				return res
 			}
 			r.phase = "down"
+		case "WAITNOTIFY":
+			// wait until the watcher goroutine has logged one more write notification than before the last
+			// append (it takes its Lstat right after that line), then give the Lstat a moment
+			dl := time.Now().Add(5 * time.Second)
+			for {
+				r.p.drain()
+				if r.p.writeNotifies > op.Ms || !r.p.alive() || time.Now().After(dl) {
+					break
+				}
+				time.Sleep(2 * time.Millisecond)
+			}
+			time.Sleep(5 * time.Millisecond)
+		case "MARKNOTIFY":
+			r.p.drain()
+			for i := range s.Ops {
+				if s.Ops[i].Kind == "WAITNOTIFY" {
+					s.Ops[i].Ms = r.p.writeNotifies
+				}
+			}
 		case "WAITIDLE":
 			idle, dead := r.waitIdle(idleWatchdog)
 			if dead && s.Kind != "trunc" {
